@@ -581,6 +581,14 @@ func init() {
 					letters := optLetters(o)
 					extra := map[string]string{"pattern_inline": "(?" + letters + ")" + body, "pattern_wrap": "(?" + letters + ":" + body + ")", "options_rest": "0",
 						"ast": ast.Sexpr(), "ngroups": itoa(ng)}
+					// the "off" forms: all five options as compile options with the complement switched off inline,
+					// and the combined on/off group (?O-C) on a pattern compiled without options
+					all := patterns.OptI | patterns.OptM | patterns.OptS | patterns.OptN | patterns.OptX
+					if compl := optLetters(all &^ o); compl != "" {
+						extra["pattern_off"] = "(?-" + compl + ")" + body
+						extra["options_all"] = itoa(all)
+						extra["pattern_onoff"] = "(?" + letters + "-" + compl + ":" + body + ")"
+					}
 					anyi := "0"
 					if o&patterns.OptI != 0 {
 						anyi = "1"
